@@ -66,7 +66,7 @@ class RealCon:
 
 
 class RealWorld(env.BaseWorld):
-    real = True
+    is_real = True
 
     def __init__(self, L, values, page=None, batch=None):
         self.values = values  # name -> python value (int / Fraction / bool)
@@ -217,6 +217,14 @@ class RealWorld(env.BaseWorld):
 
     def intern_text(self, s):
         return self.interner.intern(TEXT, s)
+
+    def set_busy_hook(self, cache, fn):
+        self.busy_hook = fn
+
+    def recover(self):
+        self.frozen = False
+        self.crash_at = None
+        self.counting = False
 
     def set_page_count(self, cache, fn):
         self.page_count_fn = fn
